@@ -112,6 +112,21 @@ Theorem C16_reverse_reverses : forall tb d d' es r, l_reverse tb d = LOk d' es r
 Proof. exact reverse_spec. Qed.
 Print Assumptions C16_reverse_reverses.
 
+(* THE replay property as one theorem.  For every case (any number of instances, any mix of Observable /
+   ObservableList attributes, any initial values) and every history `ops` in which nobody unsubscribes, clears
+   or kills the listener h or subscribes it a second time: the listener subscribes with observe(All(), All(), h)
+   on every instance from the initial state and applies every signal it is called with to its own copy (indexed
+   by signal.owner and signal.name; the Python operation chosen by signal.type, using signal.index / signal.new);
+   after EVERY operation (every prefix `firstn n ops`) its copy is exactly the real value of every observable of
+   every instance - scalars and lists. *)
+Theorem C16_listener_replay : forall (h : Z) (c : case) (ops : list op) (n : nat),
+  forallb (undisturbed h) ops = true ->
+  let hist := subscribe_all h (length (c_insts c)) ++ firstn n ops in
+  listen gen_sig_tables h (c_insts c) (run_deliveries gen_sig_tables (init_state c) hist) =
+  map i_slots (st_insts (run_state gen_sig_tables (init_state c) hist)).
+Proof. exact (listener_replay gen_sig_tables C16_source_tables_ok). Qed.
+Print Assumptions C16_listener_replay.
+
 (* after unobserve(nm, ty, h) - from any state that agrees with a ledger, i.e. after any history - h receives
    no signal of any (name, type) the call names, as long as h is not subscribed to instance i again *)
 Theorem C16_unobserve_silences : forall slots_of st L,
@@ -232,3 +247,15 @@ Example C16_example_list_spec :
   list_op_result [5; 6] (LPop None) = Some [5] /\ list_op_ret [5; 6] (LPop None) = VInt 6 /\
   list_op_result [] (LPop None) = None /\ list_op_result [1; 2; 3] LReverse = Some [3; 2; 1].
 Proof. vm_compute. repeat split; reflexivity. Qed.
+(* listener replay is not vacuous: two instances, other handlers come and go, 9 is left alone; its copy after the
+   history holds the real values, which did change *)
+Example C16_example_listener :
+  let c := {| c_insts := [[SObs None (Some 3); SList (Some [1; 2; 3])]; [SObs (Some 5) None; SList None]]; c_ops := [] |} in
+  let ops := [Observe 0 TAll (SType 1) 4; ListOp 0 1 (LSetSlice None None (Some (-1)) [7; 8; 9]); Assign 0 0 6;
+              AssignList 1 1 [4; 4]; ListOp 1 1 (LIAdd [5]); Kill [4]; ListOp 0 1 LReverse; ListOp 1 1 (LPop None);
+              Unobserve 0 TAll SAll 4; ListOp 0 1 LClear; Assign 1 0 8] in
+  forallb (undisturbed 9) ops = true /\
+  listen gen_sig_tables 9 (c_insts c)
+         (run_deliveries gen_sig_tables (init_state c) (subscribe_all 9 2 ++ ops)) =
+  [[SObs (Some 6) (Some 3); SList (Some [])]; [SObs (Some 8) None; SList (Some [4; 4])]].
+Proof. vm_compute. split; reflexivity. Qed.
